@@ -279,9 +279,10 @@ def run_invalid_model(spec):
         if kind == 'dup-country':
             if spec['late']:
                 Country(mod, 'OTHER')
-            Country(mod, spec['cc'])
+            Country(mod, ''.join(list(spec['cc'])))
         elif kind == 'dup-sector':
-            Sector(c, spec['code'] if spec['code'] in ('HH', 'GOV') else 'HH')
+            # (an EQUAL code, not the identical string object: codes read from a file or assembled on the spot)
+            Sector(c, ''.join(list(spec['code'] if spec['code'] in ('HH', 'GOV') else 'HH')))
         elif kind == 'dunder-local':
             want = ValueError
             hh.AddVariable('a__b', 'bad', '1.0')
